@@ -29,6 +29,7 @@ def consumer_self():
     return Obj("FilReader", file="sigpyproc/readers.py", fields={"_header": header_obj(None, HDR_EXTRA)})
 
 
+T0 = "self._header.tstart + start * self._header.tsamp / 86400"
 RANGE = ["gulp >= 1", "start >= 0", "N >= 1", "start + N <= self._header.nsamples"]
 LETS = {"N": "self._header.nsamples - start if is_none(nsamps) else nsamps", "nchans": "self._header.nchans"}
 COMMON = dict(cases={"nsamps": [NoneV(None), IntV()]})
@@ -63,6 +64,10 @@ def register(reg):
         body_hints=[("output index", "ii * gulp == boff(_k0)")])
     c.ensure("length", "len(result.data) == N")
     c.ensure("row sums", "forall(t, 0, N, result.data[t] == rsum(XS(), nchans, start + t, nchans))")
+    c.props.append("C08")
+    c.ensure("hdr:shape", "result.header.nsamples == N and result.header.nchans == 1")
+    c.ensure("hdr:time", f"result.header.tsamp == self._header.tsamp and result.header.tstart == {T0}")
+    c.ensure("hdr:dm", "result.header.dm == 0")
     reg.add(c)
 
     # ---- bandpass
@@ -76,6 +81,8 @@ def register(reg):
         body_hints=[("split", "forall(c, 0, nchans, lemma_colsum_split(XS(), nchans, c, start, boff(_k0), bn(_k0)))")])
     c.ensure("length", "len(result.data) == nchans")
     c.ensure("channel means", "forall(c, 0, nchans, result.data[c] == colsum(XS(), nchans, c, start, N) / N)")
+    c.props.append("C08")
+    c.ensure("hdr:shape", "result.header.nsamples == nchans and result.header.nchans == 1")
     reg.add(c)
 
     # ---- read_chan
@@ -86,6 +93,9 @@ def register(reg):
         ("done", f"len(tim_ar) == N and forall(t, 0, {done}, tim_ar[t] == XS((start + t) * nchans + ichan))")])
     c.ensure("length", "len(result.data) == N")
     c.ensure("column", "forall(t, 0, N, result.data[t] == XS((start + t) * nchans + ichan))")
+    c.props.append("C08")
+    c.ensure("hdr:shape", "result.header.nsamples == N and result.header.nchans == 1")
+    c.ensure("hdr:time", f"result.header.tsamp == self._header.tsamp and result.header.tstart == {T0}")
     reg.add(c)
 
     # ---- dedisperse
@@ -104,4 +114,8 @@ def register(reg):
     c.ensure("length", "len(result.data) == N - MAXD()")
     c.ensure("dedispersed sums", "forall(t, 0, N - MAXD(), result.data[t] == "
                                  "dsum(XS(), nchans, start + t, DLY(), nchans))")
+    c.props.append("C08")
+    c.ensure("hdr:shape", "result.header.nsamples == N - MAXD() and result.header.nchans == 1")
+    c.ensure("hdr:time", f"result.header.tsamp == self._header.tsamp and result.header.tstart == {T0}")
+    c.ensure("hdr:dm", "result.header.dm == dm")
     reg.add(c)
